@@ -64,7 +64,7 @@ def run(ctx):
         if i % 12 == 1:
             # local bindings (define / set) whose body yields nothing for some records, next to --set bindings of the same names: a
             # local binding ends with its body, whatever the body yields
-            cfg = lib.new_cfg(set=['@m=.a', 'v=1'], select=['(define "m" .k (get .o @m))=d', '@m=vm', '(set "v" 2 (get .o (? (= .a 1) "x" "zz")))=s', ':v=vv', '(define "m" .b (? (= .a 2) @m null))=d2', '(@ "m")=vm2'])
+            cfg = lib.new_cfg(set=['@m=.a', 'v=1'], select=['(set "w" .a (+ :w 10))=sw', '(set "w" .k (concat :w "!"))=sk', '(define "mm" .a (+ @mm 1))=dm', '(define "m" .k (get .o @m))=d', '@m=vm', '(set "v" 2 (get .o (? (= .a 1) "x" "zz")))=s', ':v=vv', '(define "m" .b (? (= .a 2) @m null))=d2', '(@ "m")=vm2'])
             mk = lambda: dict([('a', rnd.choice([1, 2, 3])), ('o', {'x': 1, 'y': 2})] + ([('k', rnd.choice(['x', 'y', 'nokey', 5]))] if rnd.random() < 0.7 else []) + ([('b', rnd.choice(['B', 7]))] if rnd.random() < 0.6 else []))
             A = [mk() for _ in range(rnd.randint(2, 8))]; B = [mk() for _ in range(rnd.randint(2, 8))]
         if i % 12 == 3:
